@@ -84,7 +84,7 @@ CHECKS = {
         'source domain. Tested only: convergence/ergodicity (that a finite chain is close to the posterior) by posterior-agreement statistics; the '
         'strike kernel is an abstract symmetric normalised kernel. Trans-dimensional sampler (Props/C07TransD): mixtures of kernels in detailed balance keep the target; the jump '
         'kernel on the two-model space D + DxG keeps the joint target under the reversible-jump balance; with the MODEL\'s jumpQ / acceptJumpUp / acceptJumpDown / transPdf / acceptMH the '
-        'kernel pj*jump + (1-pj)*shift leaves the joint posterior over {double-couple, full tensor} invariant for every number of steps. Multi-event kernels are not instantiated.',
+        'kernel pj*jump + (1-pj)*shift leaves the joint posterior over {double-couple, full tensor} invariant for every number of steps. One step of the model (propose with shiftSample from the stream, accept iff u < acceptMH, else stay) has, for n draws exactly and in the limit, the law mhK / mhKernel at the current state (Props/C07Step); the up-jump step tends to jumpK. Multi-event kernels are not instantiated. Trans-dimensional chains through the front-end task are compared (share of double-couple entries, reported pDC) with likelihood-weighted random sampling of the two models, with balancing-draw widths that differ from those of chains built earlier in the process; the total mass of the coded full-tensor sampling prior density is integrated on every run (open known finding: it is 1.1045, so trans-dimensional model odds are biased by that factor; not repairable without editing a pinned test).',
    note=TB + 'Outcomes are steered through the log-likelihoods given to iterate(); sources/likelihoods are opaque tokens in the model.',
    technique='Lean 4 proof (inductive invariant of the run state machine over all event lists; measure-theoretic invariance of the posterior under the Metropolis-Hastings kernel from detailed balance) + event-history correspondence',
    design='5/C07'),
